@@ -522,6 +522,25 @@ def r_position(body):
         body = body[:j] + new + body[close + 1:]
 
 
+def r_charcount(body):
+    """X.chars().count()  ->  str_char_count_(&X)   (prelude: the number of chars of a String, at most its byte length: every char takes
+    at least one byte of UTF-8).  (R-charcount)"""
+    log = []
+    rx = re.compile(r"\b(\w+(?:\.\w+)*)\s*\.chars\(\)\s*\.count\(\)")
+    m = code_mask(body)
+    out = []
+    last = 0
+    for x in rx.finditer(body):
+        if not m[x.start()]:
+            continue
+        new = "str_char_count_(&%s)" % x.group(1)
+        log.append(("R-charcount", norm_ws(x.group(0)), new))
+        out.append(body[last:x.start()] + new)
+        last = x.end()
+    out.append(body[last:])
+    return "".join(out), log
+
+
 def r_filtercollect(body):
     """RECV.iter().filter(|PAT| COND).cloned().collect::<Vec<T>>()  ->  a loop over RECV.iter() that pushes a clone of every element satisfying COND,
     in order, into a fresh Vec<T> (definitions of Iterator::filter / cloned / collect into a Vec; the filter closure sees a reference to the
@@ -1883,6 +1902,9 @@ def emit_fn(f, udir, unit_props, recs, log_global):
             log += l
         if "position" in rewrites:
             body, l = r_position(body)
+            log += l
+        if "charcount" in rewrites:
+            body, l = r_charcount(body)
             log += l
         if "rev" in rewrites:
             body, l = r_rev(body)
